@@ -2,6 +2,7 @@ import Proofs.ExtractShape
 import Proofs.ExtractPerm
 import Proofs.ExtractSql
 import Proofs.ExtractReload
+import Proofs.ExtractScope
 
 /-!
   C14 — Component extraction mirrors the BridgePoint class model.
@@ -295,6 +296,75 @@ theorem extract_deterministic_under_row_order {d d' : ClassDiagram} (hp : RowPer
     (extract d comp drv).groups.Perm (extract d' comp drv).groups :=
   extract_perm hp wf comp drv
 
+/-! ### restricting to a component -/
+
+/-- `is_contained_in(pe_pe, c_c)` decides exactly "the containment chain PE_PE -> EP_PKG | C_C -> its PE_PE -> …
+    reaches the component" (`Reaches`), through packages, nested components and packages inside components, for
+    every acyclic container forest (`TreeOk`: the fuel of the model covers the depth; Python recurses unboundedly) -/
+theorem restrict_contained_iff {cs : List Container} (tree : TreeOk cs) (root : Nat) (p : Parent) :
+    containedIn cs root p = true ↔ Reaches cs root p :=
+  contained_iff tree root p
+
+/-- the restricted build defines exactly the classes whose containment chain reaches the requested component,
+    each one as in the whole model; an association is kept iff the chain of ITS R_REL reaches the component —
+    the position of its classes plays no role (see `build_raises_on_dangling` for what follows) -/
+theorem restrict_exact {d : ClassDiagram} (tree : TreeOk d.containers) (c : Nat) (drv : Bool) :
+    (∀ s, s ∈ (extract d (some c) drv).classes ↔
+      ∃ k ∈ d.classes, Reaches d.containers c k.parent ∧ s = classOf d drv k) ∧
+    (∀ g, g ∈ (extract d (some c) drv).groups ↔
+      ∃ r ∈ d.rels, Reaches d.containers c r.parent ∧ groupOf d r = some g) :=
+  restrict_exact' tree c drv
+
+/-- monotone: component ⊆ enclosing component ⊆ whole model (as sublists: same definitions, same order) -/
+theorem restrict_monotone {d : ClassDiagram} (tree : TreeOk d.containers) {c1 c2 : Nat}
+    (h12 : Reaches d.containers c2 (.comp c1)) (drv : Bool) :
+    (extract d (some c1) drv).classes.Sublist (extract d (some c2) drv).classes ∧
+    (extract d (some c2) drv).classes.Sublist (extract d none drv).classes ∧
+    (extract d (some c1) drv).groups.Sublist (extract d (some c2) drv).groups ∧
+    (extract d (some c2) drv).groups.Sublist (extract d none drv).groups :=
+  restrict_monotone' tree h12 drv
+
+/-- restricting a restriction is the restriction to the inner component; with `c1 = c2` (`Reaches.here`):
+    restricting twice is restricting once -/
+theorem restrict_compose {d : ClassDiagram} (tree : TreeOk d.containers) {c1 c2 : Nat}
+    (h12 : Reaches d.containers c2 (.comp c1)) (drv : Bool) :
+    ((d.classes.filter (fun k => inScope d.containers (some c2) k.parent)).filter
+        (fun k => inScope d.containers (some c1) k.parent)).map (classOf d drv) = (extract d (some c1) drv).classes ∧
+    ((d.rels.filter (fun r => inScope d.containers (some c2) r.parent)).filter
+        (fun r => inScope d.containers (some c1) r.parent)).filterMap (groupOf d) = (extract d (some c1) drv).groups :=
+  restrict_compose' tree h12 drv
+
+/-- a relationship inside the component with a class outside it: `define_association` cannot find the class,
+    `mk_component` RAISES (UnknownClassException ⊂ MetaModelException; model: `mkComponent … = none`) — no
+    dangling association is ever returned, so nothing unloadable is ever written -/
+theorem build_raises_on_dangling {d : ClassDiagram} {comp : Option Nat} {drv : Bool} {g : SGroup} {a : SAssoc}
+    (hg : g ∈ (extract d comp drv).groups) (ha : a ∈ g.items)
+    (hno : (∀ c ∈ (extract d comp drv).classes, upper c.kl ≠ upper a.src.kind) ∨
+           (∀ c ∈ (extract d comp drv).classes, upper c.kl ≠ upper a.tgt.kind)) :
+    mkComponent d comp drv = none :=
+  dangling_raises' hg ha hno
+
+/-- conversely a component that builds is `extract`, has distinct class names and only associations between its
+    own classes over existing target attributes -/
+theorem built_component_closed {d : ClassDiagram} {comp : Option Nat} {drv : Bool} {s : Schema}
+    (h : mkComponent d comp drv = some s) :
+    s = extract d comp drv ∧ (s.classes.map (fun c => upper c.kl)).Nodup ∧
+    ∀ g ∈ s.groups, ∀ a ∈ g.items,
+      (∃ c ∈ s.classes, upper c.kl = upper a.src.kind) ∧
+      (∃ c ∈ s.classes, upper c.kl = upper a.tgt.kind) ∧
+      (∃ c ∈ s.classes, upper c.kl = upper a.tgt.kind ∧
+        ∀ k ∈ a.tgt.keys, upper k ∈ c.attrs.map (fun x => upper x.name)) :=
+  mkComponent_some h
+
+/-- derived attributes only on request: with the flag off NO declared attribute stems from a derived one, and the
+    result is the flag-on result of the non-derived attributes (nothing else moves); with the flag on the declared
+    attributes are exactly the modeled ones of a supported type, derived or not, in modeled position -/
+theorem derived_only_on_request (d : ClassDiagram) (c : Class) :
+    (∀ s ∈ (classOf d false c).attrs, ∃ a ∈ c.attrs, a.name = s.name ∧ a.isDerived = false ∧ attrTy d a = some s.ty) ∧
+    (classOf d false c).attrs = (c.attrs.filter (fun a => !a.isDerived)).filterMap (sattr d true) ∧
+    (classOf d true c).attrs.map (·.name) = (c.attrs.filter (fun a => (attrTy d a).isSome)).map (·.name) :=
+  ⟨fun s h => derived_off' d c s h, (derived_flag' d c).1, (derived_flag' d c).2⟩
+
 /-! ### schema_reload: the SQL written for the component loads back to the same definitions -/
 
 /-- `gen_sql_schema.main` ends with `xtuml.persist_database(component, path)`.  For EVERY diagram whose key
@@ -432,6 +502,28 @@ example : (extract (applyEdit (.retypeAttr 1 11 104) d0) none false).classes.map
 /-- R_AONE.Mult lands in the SECOND association of the linked relationship -/
 example : ((extract (applyEdit (.setMult 42 .one true) d0) none false).groups.map
     (fun g => g.items.map (fun a => a.src.many))) = [[true], [true, true]] := by decide
+
+/-- nested containers: package 9 inside component 8 inside package 5 inside component 6 -/
+def nested : List Container :=
+  [⟨false, 5, "Pkg", .comp 6⟩, ⟨true, 6, "Comp", .none⟩, ⟨false, 7, "Other", .none⟩, ⟨true, 8, "Inner", .pkg 5⟩,
+   ⟨false, 9, "Deep", .comp 8⟩]
+
+example : TreeOk nested :=
+  ⟨⟨fun p => match p with
+      | .none => 0 | .comp 6 => 1 | .pkg 5 => 2 | .comp 8 => 3 | .pkg 9 => 4 | .pkg 7 => 1 | _ => 0,
+    by decide, by intro p; simp only [nested, List.length_cons, List.length_nil]; split <;> omega⟩⟩
+
+example : Reaches nested 6 (.pkg 9) ∧ Reaches nested 6 (.comp 8) ∧ containedIn nested 6 (.pkg 9) = true ∧
+    containedIn nested 8 (.pkg 5) = false ∧ containedIn nested 6 (.pkg 7) = false :=
+  ⟨.pkg (k := ⟨false, 9, "Deep", .comp 8⟩) (by decide)
+      (.comp (k := ⟨true, 8, "Inner", .pkg 5⟩) (by decide) (.pkg (k := ⟨false, 5, "Pkg", .comp 6⟩) (by decide) .here)),
+   .comp (k := ⟨true, 8, "Inner", .pkg 5⟩) (by decide) (.pkg (k := ⟨false, 5, "Pkg", .comp 6⟩) (by decide) .here),
+   by decide, by decide, by decide⟩
+
+/-- Owner moved out of the component while R1 stays inside: the build raises; moved together with R1: it builds -/
+example : mkComponent (applyEdit (.moveClass 1 (.pkg 7)) d0) (some 6) false = none ∧
+    (mkComponent (applyEdits [.moveRel 41 .none, .moveClass 1 (.pkg 7)] d0) (some 6) false).isSome = true ∧
+    (mkComponent d0 (some 6) true).isSome = true := by decide
 
 /-- the rows of d0 in reverse order -/
 example : RowWF d0 ∧ RowPerm d0 ⟨d0.containers.reverse, d0.dts.reverse, d0.classes.reverse, d0.rels.reverse⟩ :=
